@@ -58,10 +58,23 @@ impl C08 {
                 input[11] = c as u8;
             }
         }
+        // "any accepted byte string": accepted through the slice door or through the io::Read door
+        let read_door = rng.chance(1, 3);
         let res = shell::guarded(|| {
-            let d = match (t.from_slice)(&input) {
-                Ok(d) => d,
-                Err(_) => return None,
+            let d = if read_door {
+                let mut cur = Cursor::new(&input[..]);
+                match (t.read)(&mut cur, &input) {
+                    Ok(mut d) => {
+                        d.consumed = cur.position() as usize;
+                        d
+                    }
+                    Err(_) => return None,
+                }
+            } else {
+                match (t.from_slice)(&input) {
+                    Ok(d) => d,
+                    Err(_) => return None,
+                }
             };
             // second serialiser
             let written: Option<Vec<u8>> = writer.and_then(|w| {
@@ -99,9 +112,11 @@ impl C08 {
                 return;
             }
         };
+        let door = if read_door { "[accepted by read]" } else { "" };
         let viol = |rep: &mut Report, what: &str, detail: String| {
-            rep.violation(&format!("bytes|{}|{}", t.name, what), format!("{}: {}", t.name, detail), &input);
+            rep.violation(&format!("bytes|{}{}|{}", t.name, door, what), format!("{}{}: {}", t.name, door, detail), &input);
         };
+        rep.count(if read_door { "bytes.accepted_by_read" } else { "bytes.accepted_by_from_slice" });
         let header_part = &input[t.param_bytes..t.param_bytes + (d.consumed - t.param_bytes).min(input.len() - t.param_bytes)];
         if let Some(w) = &written {
             if !d.reencoded.is_empty() && w != &d.reencoded {
